@@ -341,6 +341,21 @@ func (g *Gen) CoroutineProgram() *Chunk {
 		}
 		g.cover("co:go-api-drive")
 	}
+	// a closure over a local of a coroutine that dies by a fault of its own function
+	// keeps the value the local had (the dying coroutine's registers are cleared)
+	if g.R.Intn(6) == 0 {
+		b.Stmts = append(b.Stmts,
+			&SLocal{Names: []string{"esc"}},
+			Local1("dco", co("create", Fn([]string{"p"}, false, Blk(
+				Local1("dv", Bin("*", N("p"), Num(10))),
+				Assign1(N("esc"), Fn(nil, false, Blk(Assign1(N("dv"), Bin("+", N("dv"), Num(1))), Return(N("dv"), N("p"))))),
+				&SCall{Call: Call(N("esc"))},
+				Local1("dz", Bin("+", &ENil{}, N("dv"))))))),
+			CallSN("emit", Str("dying"), &EParen{X: co("resume", N("dco"), Num(float64(1+g.R.Intn(5))))}, co("status", N("dco"))),
+			CallSN("emit", Str("escaped"), Call(N("esc"))),
+			CallSN("emit", Str("escaped-again"), Call(N("esc"))))
+		g.cover("co:closure-escapes-a-dying-coroutine")
+	}
 	// a refused resume through the other entry point does not change how the
 	// running coroutine reports its own failure afterwards
 	if g.R.Intn(8) == 0 {
